@@ -115,10 +115,10 @@ func (f *Field) getArg(name string) (av *ArgValue) {
 
 // checkArgs verifies that every argument provided is one the field definition
 // in the container type declares.
-func (f *Field) checkArgs() (errors []error) {
+func (f *Field) checkArgs(t Type) (errors []error) {
 	if 0 < len(f.Args) {
 		var fd *FieldDef
-		switch ct := f.ConType.(type) {
+		switch ct := t.(type) {
 		case *Object:
 			fd = ct.fields.get(f.Name)
 		case *Interface:
